@@ -286,3 +286,26 @@ add(Contract(
                        ("line", "state.line == old(state.line)")],
                "dec": "endLine - nextLine"}},
 ))
+
+# ------------------------------------------------------------------ ParserBlock.tokenize (C01 progress, C20 nesting guard, C03 dispatch guard)
+PB = "markdown_it.parser_block.ParserBlock."
+REGISTRY["<block_rule>"].ensures.append(("fallback", "implies(AlwaysMatches(__fn__) and not silent, result)"))
+REGISTRY["<block_rule>"].ensures.append(("level", "state.level == old(state.level) and state.lineMax == old(state.lineMax) and state.blkIndent == old(state.blkIndent)"))
+REGISTRY["markdown_it.ruler.Ruler.getRules"].ensures.append(("fallback-last", "len(result) >= 1 and AlwaysMatches(result[len(result) - 1])"))
+add(Contract(
+    PB + "tokenize", params={"self": "obj:ParserBlock", "state": "obj:StateBlock", "startLine": "int", "endLine": "int"}, props=["C01", "C20", "C03"],
+    requires=wf() + [("range", "0 <= startLine and endLine <= state.lineMax"), ("nest", "state.md.options.maxNesting >= 1")],
+    at=[("call:rule", "rule-under-nesting-cap", "state.level < state.md.options.maxNesting", ["C20", "C01"]),
+        ("call:rule", "rule-on-nonempty-line", "line < endLine and state.bMarks[line] + state.tShift[line] < state.eMarks[line] and state.sCount[line] >= state.blkIndent", ["C03", "C01"])],
+    ensures=[("level", "state.level == old(state.level)", ["C02", "C07"])],
+    loops={0: {"types": {"rule": "none", "hasEmptyLines": "bool"},
+               "inv": [("line-lo", "line >= startLine"), ("lineMax", "state.lineMax == old(state.lineMax) and state.blkIndent == old(state.blkIndent)"),
+                       ("level", "state.level == old(state.level)"), ("maxNesting", "maxNesting == state.md.options.maxNesting"), ("rules", "len(rules) >= 1 and AlwaysMatches(rules[len(rules) - 1])")],
+               "dec": "endLine - line"},
+           1: {"types": {"rule": "none"}, "let": {},
+               "inv": [("line", "state.line == line and line < endLine and line >= startLine"), ("nonempty", "state.bMarks[line] + state.tShift[line] < state.eMarks[line] and state.sCount[line] >= state.blkIndent"),
+                       ("nest", "state.level < maxNesting"), ("lineMax", "state.lineMax == old(state.lineMax) and state.blkIndent == old(state.blkIndent)"), ("level", "state.level == old(state.level)"),
+                       ("maxNesting", "maxNesting == state.md.options.maxNesting"), ("rules", "len(rules) >= 1 and AlwaysMatches(rules[len(rules) - 1])"),
+                       ("fallback-not-reached", "_it1 < len(rules)")],
+               "dec": "len(rules) - _it1"}},
+))
